@@ -391,9 +391,15 @@ func (c *Ctx) symxRun() *simpleVerdict {
 			special{[]symReg{{"<=>", t}, {"<=", 101}}, []string{"<=>", "<=>a", "<=", "<=a", "<"}, nil},
 			special{[]symReg{{"≤≥", t}, {"=", t}}, []string{"≤≥", "≤≥a", "≤", "≤a", "=", "=≤≥"}, []symReg{{"≤≥≤", t}}},
 		)
-		// (a one-character symbol followed by the registration of a longer symbol with the same first character
-		// is left to the sets with distinct non-zero types above: with the zero type, Add("=",0); Add("=≤",0)
-		// makes "=" a plain Symbol on the unchanged tree - reported separately, not part of this family)
+		// a one-character symbol, then a longer symbol with the same first character, registered at once and
+		// after the table was used ("registering further symbols never alters the text or type reported for
+		// existing ones"). With the zero type the pinned tree turned "=" into a plain Symbol here - Add took a node
+		// of type Unknown for one that had not been registered; found by this member, repaired in /repo
+		// (known_findings.json)
+		specials = append(specials,
+			special{[]symReg{{"=", t}, {"=≤", t}}, []string{"=", "=a", "=≤", "=≤a", "=="}, nil},
+			special{[]symReg{{"=", t}}, []string{"=", "=a", "=≤"}, []symReg{{"=≤", 103}}},
+		)
 	}
 	ctor := c.MustFunc("tokenizers/generic", "", "NewGenericSymbolState")
 	st := ctor.Signature.Results().At(0).Type()
